@@ -9,16 +9,19 @@ import (
 	"golang.org/x/tools/go/ssa"
 )
 
-// isCellAlloc: a local whose address is only loaded from / stored to / captured by closures.
+// isCellAlloc: a local whose address is only loaded from / stored to / captured by closures
+// (for structs: also through field addresses used the same way).  Such locals are kept as
+// values in the symbolic store instead of heap objects.
 func (e *Engine) isCellAlloc(a *ssa.Alloc) bool {
 	t := a.Type().(*types.Pointer).Elem()
-	if _, ok := isStruct(t); ok && !e.isIntrinsicStruct(t) {
-		return false
-	}
 	if _, ok := t.Underlying().(*types.Array); ok {
 		return false
 	}
-	refs := a.Referrers()
+	return cellUses(a, a)
+}
+
+func cellUses(v ssa.Value, root ssa.Value) bool {
+	refs := v.Referrers()
 	if refs == nil {
 		return true
 	}
@@ -29,12 +32,26 @@ func (e *Engine) isCellAlloc(a *ssa.Alloc) bool {
 				return false
 			}
 		case *ssa.Store:
-			if x.Addr != a {
+			if x.Addr != v {
 				return false // the address itself is stored somewhere
 			}
 		case *ssa.DebugRef:
 		case *ssa.MakeClosure:
 			// captured by a closure: fine as long as closures are inlined
+			if v != root {
+				return false
+			}
+		case *ssa.FieldAddr:
+			if x.X != v {
+				return false
+			}
+			ft := x.Type().(*types.Pointer).Elem()
+			if _, isArr := ft.Underlying().(*types.Array); isArr {
+				return false
+			}
+			if !cellUses(x, root) {
+				return false
+			}
 		default:
 			return false
 		}
@@ -63,7 +80,7 @@ func (e *Engine) step(fr *Frame, st *State, instr ssa.Instruction) {
 			} else {
 				st.cells[k] = e.zero(t)
 			}
-			fr.vals[x] = &CellPtr{k}
+			fr.vals[x] = &CellPtr{key: k}
 			return
 		}
 		r := e.newObject(st, sanitize(x.Comment))
@@ -92,6 +109,11 @@ func (e *Engine) step(fr *Frame, st *State, instr ssa.Instruction) {
 		fr.vals[x] = e.binop(fr, st, x.Op, e.val(fr, x.X), e.val(fr, x.Y), x.X.Type(), x.Pos())
 	case *ssa.FieldAddr:
 		base := e.val(fr, x.X)
+		if cp, isCell := base.(*CellPtr); isCell {
+			np := &CellPtr{key: cp.key, path: append(append([]int{}, cp.path...), x.Field), ptypes: append(append([]types.Type{}, cp.ptypes...), deref(x.X.Type()))}
+			fr.vals[x] = np
+			return
+		}
 		bt, ok := base.(T)
 		if !ok {
 			e.unsupported("field address on %T", base)
@@ -149,6 +171,9 @@ func (e *Engine) step(fr *Frame, st *State, instr ssa.Instruction) {
 		hn, vn, ln := e.mapHeaps(mt)
 		ks, vs := e.sortOf(mt.Key()), e.sortOf(mt.Elem())
 		hh := e.heap(st, hn, arraySort(sRef, arraySort(ks, sBool)))
+		e.recStore(hn, r)
+		e.recStore(vn, r)
+		e.recStore(ln, r)
 		e.setHeap(st, hn, tStore(hh, r, T{fmt.Sprintf("((as const %s) false)", arraySort(ks, sBool)), arraySort(ks, sBool)}))
 		vh := e.heap(st, vn, arraySort(sRef, arraySort(ks, vs)))
 		e.setHeap(st, vn, tStore(vh, r, T{fmt.Sprintf("((as const %s) %s)", arraySort(ks, vs), e.zero(mt.Elem()).S), arraySort(ks, vs)}))
@@ -166,6 +191,9 @@ func (e *Engine) step(fr *Frame, st *State, instr ssa.Instruction) {
 		hh := e.heap(st, hn, arraySort(sRef, arraySort(ks, sBool)))
 		had := tSel(tSel(hh, m), k)
 		lh := e.heap(st, ln, arraySort(sRef, sInt))
+		e.recStore(hn, m)
+		e.recStore(vn, m)
+		e.recStore(ln, m)
 		e.setHeap(st, ln, tStore(lh, m, tIte(had, tSel(lh, m), T{fmt.Sprintf("(+ %s 1)", tSel(lh, m).S), sInt})))
 		e.setHeap(st, hn, tStore(hh, m, tStore(tSel(hh, m), k, tTrue)))
 		vh := e.heap(st, vn, arraySort(sRef, arraySort(ks, vs)))
@@ -249,6 +277,7 @@ func (e *Engine) zeroElems(st *State, r T, et types.Type) {
 	hn, hs := e.elemHeap(et)
 	h := e.heap(st, hn, hs)
 	inner := arraySort(sInt, e.sortOf(et))
+	e.recStore(hn, r)
 	e.setHeap(st, hn, tStore(h, r, T{fmt.Sprintf("((as const %s) %s)", inner, e.zero(et).S), inner}))
 }
 
@@ -268,6 +297,15 @@ func (e *Engine) nilCheck(fr *Frame, st *State, p Val, pos token.Pos, what strin
 func (e *Engine) nilCheckT(fr *Frame, st *State, t T, src ssa.Value, pos token.Pos) {
 	if strings.HasPrefix(t.S, "new_") || strings.HasPrefix(t.S, "gref_") || strings.HasPrefix(t.S, "(fld_") || strings.HasPrefix(t.S, "(eref ") {
 		return
+	}
+	if st.nonnil[t.S] {
+		return
+	}
+	if st.nonnil == nil {
+		st.nonnil = map[string]bool{}
+	}
+	if e.dry == 0 && e.noOblig == 0 {
+		st.nonnil[t.S] = true
 	}
 	label := "deref"
 	if src != nil {
@@ -598,6 +636,7 @@ func (e *Engine) convert(fr *Frame, st *State, x *ssa.Convert) Val {
 		h := e.heap(st, hn, hs)
 		arr := e.fresh(arraySort(sInt, e.sortOf(et)), "bytes")
 		e.assume(st, T{fmt.Sprintf("(forall ((i Int)) (! (=> (and (<= 0 i) (< i (str.len %s))) (= (select %s i) (str.to_code (str.at %s i)))) :pattern ((select %s i))))", tv.S, arr.S, tv.S, arr.S), sBool})
+		e.recStore(hn, r)
 		e.setHeap(st, hn, tStore(h, r, arr))
 		e.declFun("bytes_str", "(Ref) String")
 		e.assume(st, T{fmt.Sprintf("(= (bytes_str %s) %s)", r.S, tv.S), sBool})
